@@ -799,16 +799,24 @@ OP_CTOR = {"H": "Hadamard", "X": "Pauli::X", "Y": "Pauli::Y", "Z": "Pauli::Z", "
            "U2": "Unitary2::new(UMAT).unwrap()", "RYP": "Unitary2::from_ry_phase(6.9, -3.7)", "RYPdag": "Unitary2::from_ry_phase_dagger(6.9, -3.7)",
            "CNOT": "CNOT", "SWAP": "SWAP", "Toffoli": "Toffoli", "Match": "Matchgate::new(6.9, 0.4, -4.1)"}
 
-def role_value(role, op):
+# probe variants for the list-of-targets forms: 0 = distinct qubits, 1 = a qubit listed twice (the single-target gate is applied
+# once per LISTED qubit, in order), 2 = the empty list (nothing is applied)
+VARIANT_TARGETS = {1: [3, 0, 3], 2: []}
+LAST_VARIANTS = []
+def has_variants(e):
+    return e.get("form") in ("FMulti", "FCtrl") and e.get("family") != "SWAP" and any(role == "targets" and is_list for _, role, is_list in e["roles"])
+
+def role_value(role, op, variant=0):
+    if role == "targets" and op != "SWAP" and variant in VARIANT_TARGETS: return VARIANT_TARGETS[variant]
     if role == "targets" and op == "SWAP": return [1, 3]
     if role.startswith("param"): return OP_PARAMS[op][int(role[5:])]
     return ROLE_VAL[role]
 
-def expected_calls(e):
+def expected_calls(e, variant=0):
     """the documented-role reading on the probe values: list of (op, targets, controls)"""
     rv = {}
     for n, role, is_list in e["roles"]:
-        rv.setdefault(role, []).append(role_value(role, e["family"]))
+        rv.setdefault(role, []).append(role_value(role, e["family"], variant))
     def one(r): return rv[r][0] if r in rv else None
     ts = one("targets") if "targets" in rv else [x for r in ("target", "target1", "target2") if r in rv for x in rv[r]]
     cs = one("controls") if "controls" in rv else [x for r in ("control", "control1", "control2") if r in rv for x in rv[r]]
@@ -827,13 +835,19 @@ def gen_rust(entries):
     """Rust source of the surfaces binary; returns (source, plan) where plan[i] = (entry index, label)"""
     calls = []
     plan = []
+    del LAST_VARIANTS[:]
+    work = []
     for idx, e in enumerate(entries):
         if e.get("family") is None or e.get("roles") is None: continue
-        vals = [role_value(role, e["family"]) for _, role, _ in e["roles"]]
+        work.append((idx, 0))
+        if has_variants(e): work += [(idx, 1), (idx, 2)]
+    for idx, variant in work:
+        e = entries[idx]
+        vals = [role_value(role, e["family"], variant) for _, role, _ in e["roles"]]
         types = e.get("types") or [None] * len(vals)
         args = ", ".join(rust_arg(v, k, t) for v, (_, k), t in zip(vals, e["params"], types))
         i = len(plan)
-        plan.append(idx)
+        plan.append(idx); LAST_VARIANTS.append(variant)
         s, name = e["surface"], e["name"]
         if s == "state":
             calls.append("    emit_state(%d, p, st.%s(%s));" % (i, name, args))
